@@ -70,7 +70,8 @@ PolicyBodies ==
 
 (* ---- extension-field layouts for the size slice ---- *)
 PlainItems4 == {Uid(0), Uid(4), Uid(12), Uid(24), Uid(32), Unk(8), Unk(28)}
-Plain4 == { Pkt(4, 3, q, t) : q \in Seqs(PlainItems4, IF Deep THEN 3 ELSE 2), t \in {0, 4, 20, 24} }
+\* tails: a legacy MAC of up to 24 octets follows the fields; 22 and 23 make the datagram length no multiple of 4
+Plain4 == { Pkt(4, 3, q, t) : q \in Seqs(PlainItems4, IF Deep THEN 3 ELSE 2), t \in {0, 4, 20, 22, 23, 24} }
           \cup { [Pkt(4, 3, <<>>, 0) EXCEPT !.marker = TRUE], [Pkt(4, 3, <<Uid(32)>>, 0) EXCEPT !.marker = TRUE] }
 Plain3 == { Pkt(3, 3, <<>>, t) : t \in {0, 2, 4, 20, 24, 28} }
 PlainItems5 == {Uid(0), Uid(5), Uid(32), RefReq(4, "in"), RefReq(16, "in"), RefReq(8, "out"), Unk(8), PadF(8)}
@@ -103,6 +104,11 @@ Nts4Special ==
     Pkt(4, 3, <<Uid(32)>> \o Rep(Unk(8), 8) \o <<Ck("v256", 104), Auth("ok", 256, <<>>)>>, 0),
     Pkt(4, 3, <<Ck("v256", 104), Auth("ok", 256, <<>>)>>, 0),
     Pkt(4, 3, <<Uid(32), Ck("v256", 104), Auth("ok", 256, <<>>), Auth("wrongKey", 256, <<>>)>>, 0),
+    \* a failing authenticator in front of one that verifies (over everything before it, the failed one included)
+    Pkt(4, 3, <<Auth("wrongKey", 256, <<>>), Uid(32), Ck("v256", 104), Auth("ok", 256, <<>>)>>, 0),
+    Pkt(4, 3, <<Uid(32), Ck("v256", 104), Auth("wrongKey", 256, <<>>), Auth("ok", 256, <<>>)>>, 0),
+    Pkt(4, 3, <<Uid(32), Ck("v256", 104), Auth("tampered", 256, <<>>), Auth("ok", 256, <<>>)>>, 0),
+    Pkt(4, 3, <<Auth("empty", 256, <<>>), Uid(32), Ck("v256", 104), Auth("ok", 256, <<>>)>>, 0),
     Pkt(4, 3, <<Uid(32), Ck("v256", 104), Auth("short", 256, <<>>)>>, 0),
     Pkt(4, 3, <<Auth("wrongKey", 256, <<>>)>>, 0), Pkt(4, 3, <<Auth("empty", 256, <<>>)>>, 0), Pkt(4, 3, <<Auth("empty", 256, <<>>)>>, 20),
     Pkt(4, 3, <<Uid(32), Ck("v256", 104), Auth("ok", 256, <<Ck("v256", 104), Ph(104)>>)>>, 0),
@@ -113,6 +119,8 @@ Nts5 ==
       p \in {<<>>, <<Uid(32)>>, <<Uid(4)>>, <<Uid(32), RefReq(16, "in")>>}, c \in {Ck("v256", 104), Ck("foreign", 104)},
       d1 \in {<<>>, <<Draft("ok")>>}, h \in {<<>>, <<Ph(104)>>}, x \in {Auth("ok", 256, <<>>), Auth("wrongKey", 256, <<>>)},
       d2 \in {<<>>, <<Draft("ok")>>} }
+  \cup { Pkt(5, 3, <<Draft("ok"), Auth("wrongKey", 256, <<>>), Uid(32), Ck("v256", 104), Auth("ok", 256, <<>>)>>, 0),
+         Pkt(5, 3, <<Draft("ok"), Uid(32), Ck("v256", 104), Auth("wrongKey", 256, <<>>), Auth("ok", 256, <<>>)>>, 0) }
   \cup { Pkt(5, 3, <<Auth("wrongKey", 256, <<>>)>>, 0), Pkt(5, 4, <<Auth("wrongKey", 256, <<>>)>>, 0),
          Pkt(5, 3, <<Auth("empty", 256, <<>>)>>, 0), Pkt(5, 3, <<Draft("ok"), Auth("empty", 256, <<>>)>>, 0),
          Pkt(5, 3, <<Uid(32), Ck("v256", 104), Auth("empty", 256, <<>>)>>, 0) }
